@@ -7,6 +7,7 @@ if ! git diff --quiet; then echo "/repo has uncommitted changes; refusing" >&2; 
 trap 'git -C /repo checkout -- . ; git -C /repo clean -fdq -- crates' EXIT
 git apply "$P" || { echo "patch does not apply" >&2; exit 2; }
 cd /verif
+export VERIF_EVIDENCE_DIR=/verif/harness/target/evidence-scratch
 for c in "$@"; do
   out=$(./check "$c" ${TIER:-quick} 2>&1); rc=$?
   echo "$c exit=$rc $(echo "$out" | grep -m1 -B1 '^VIOLATION' | tr '\n' ' ' | cut -c1-400)"
